@@ -9,6 +9,8 @@
      affine_re / affine_im / quadratic_re            the response is affine (holomorphic) / of degree 2 along the perturbed entry
      resp_pres blk j                                 the sub-network does not write the state of Signal j
      direct_sig blk j                                Signal j is (directly) an input or output of a module of blk
+     out_sig blk outps s j                           Signal j is an output of interest that has a value when the
+                                                     analytical pass starts (a None output is skipped with a warning)
      clean o                                         o is None or an all-zero value *)
 From Coq Require Import ZArith QArith Qcanon List Bool.
 From Pymoto Require Import Base.Cmp Model.FD Proofs.FDP.
@@ -57,18 +59,33 @@ Theorem C19_entry_perturbed : forall c blk si iin outps f0 df dxan x k ks s,
 Proof. exact perturb_entries_step. Qed.
 Print Assumptions C19_entry_perturbed.
 
-(* what the analytical pass records for an output: its value, the input sensitivities obtained by backpropagating
-   the seed, and the seed itself (unless the output keeps its allocation and the quirk is present) *)
+(* what one iteration of the analytical pass does for an output that has a value: it records the value, the input
+   sensitivities obtained by backpropagating the seed, and THE SAME seed (unconditionally: a deep copy is installed on
+   the output, so no reset can reach the recorded one); the rest of the pass runs on the remaining outputs from the
+   store after blk.reset(); Sout.reset(), with the remaining random numbers *)
 Theorem C19_analytical_pass : forall c blk inps so outps iout rand s output,
   get_state so s = Some output ->
   let df := fst (make_seed c iout output rand) in
   let s2 := n_sensitivity blk (set_sens so (Some df) s) in
-  hd None (a_f0 (analytical c blk inps (so :: outps) iout rand s)) = Some output /\
-  hd [] (a_dx (analytical c blk inps (so :: outps) iout rand s)) = map (fun si => get_sens si s2) inps /\
-  (q_seed_alias c = false \/ keep (getsig s2 (s_root so)) = false ->
-   hd None (a_df (analytical c blk inps (so :: outps) iout rand s)) = Some df).
+  let a := analytical c blk inps (so :: outps) iout rand s in
+  let a' := analytical c blk inps outps (S iout) (snd (make_seed c iout output rand)) (reset_sig so (n_reset blk s2)) in
+  (hd None (a_f0 a) = Some output /\
+   hd [] (a_dx a) = map (fun si => get_sens si s2) inps /\
+   hd None (a_df a) = Some df) /\
+  a_f0 a = Some output :: a_f0 a' /\ a_dx a = map (fun si => get_sens si s2) inps :: a_dx a' /\
+  a_df a = Some df :: a_df a' /\ a_store a = a_store a'.
 Proof. exact analytical_head. Qed.
 Print Assumptions C19_analytical_pass.
+
+(* an output whose state is None is skipped: nothing recorded, no sensitivity touched *)
+Theorem C19_analytical_pass_none_output : forall c blk inps so outps iout rand s,
+  get_state so s = None ->
+  let a := analytical c blk inps (so :: outps) iout rand s in
+  let a' := analytical c blk inps outps (S iout) rand s in
+  a_f0 a = None :: a_f0 a' /\ a_dx a = map (fun _ => None) inps :: a_dx a' /\ a_df a = None :: a_df a' /\
+  a_store a = a_store a'.
+Proof. exact analytical_skip. Qed.
+Print Assumptions C19_analytical_pass_none_output.
 
 (* ------------------------------------------------------------------ 2. exactness on (affine-)linear responses, any dx <> 0 *)
 Theorem C19_linear_exact : forall x0 c sf iin k s (os : list outinfo) (Js : list (list K)),
@@ -138,12 +155,32 @@ Theorem C19_perturbation_window : forall blk si s b k a,
 Proof. exact entry_roundtrip. Qed.
 Print Assumptions C19_perturbation_window.
 
-(* no sensitivity is left set on any Signal of the sub-network (None, or zeros where an allocation is kept) *)
+(* no sensitivity is left set (None, or zeros where an allocation is kept): on every Signal of the sub-network, and on
+   EVERY output of interest that has a value — also one that is not a signal of any executed module (a tosig produced
+   upstream of the selected sub-network) *)
 Theorem C19_no_sensitivity_left : forall c blk inps outps s res j,
-  finite_difference c false blk inps outps s = inr res -> direct_sig blk j ->
+  finite_difference c false blk inps outps s = inr res -> direct_sig blk j \/ out_sig blk outps s j ->
   clean (se (getsig (f_store res) j)).
 Proof. exact fd_leaves_clean. Qed.
 Print Assumptions C19_no_sensitivity_left.
+
+(* ... and none is created anywhere: ANY Signal (sub-network, upstream, downstream, unrelated, base of a slice) that was
+   clean before the call is clean after it *)
+Theorem C19_no_sensitivity_created : forall c blk inps outps s res j,
+  finite_difference c false blk inps outps s = inr res -> clean (se (getsig s j)) ->
+  clean (se (getsig (f_store res) j)).
+Proof. exact fd_keeps_clean. Qed.
+Print Assumptions C19_no_sensitivity_created.
+
+(* both, for a Network with fromsig / tosig *)
+Theorem C19_network_no_sensitivity_left : forall c mods inps outps s res i1 i2 j,
+  find_first inps mods 0 = Some i1 -> find_last outps mods 0 None = Some i2 ->
+  finite_difference c true mods inps outps s = inr res ->
+  let blk := firstn (S i2 - i1) (skipn i1 mods) in
+  direct_sig blk j \/ out_sig blk outps (n_response (firstn i1 mods) s) j \/ clean (se (getsig s j)) ->
+  clean (se (getsig (f_store res) j)).
+Proof. exact fd_network_leaves_clean. Qed.
+Print Assumptions C19_network_no_sensitivity_left.
 
 (* the perturbation phase does not touch any sensitivity at all *)
 Theorem C19_perturbation_keeps_sensitivities : forall c blk outps f0 df dxan inps iin s,
@@ -181,51 +218,82 @@ Theorem C19_subnetwork_errors : forall c mods inps outps s,
 Proof. exact fd_network_errors. Qed.
 Print Assumptions C19_subnetwork_errors.
 
-(* ------------------------------------------------------------------ examples and the refuted clause *)
+(* ------------------------------------------------------------------ examples *)
 Local Open Scope Q_scope.
 Definition r (a : Q) : K := (Q2Qc a, Q2Qc 0).
 Definition V (d : list K) (k : vkind) (cx : bool) : val := {| v_dat := d; v_kind := k; v_cx := cx |}.
 Definition R0 (i : nat) : sref := {| s_root := i; s_slice := None |}.
 Definition rep_q (x : report) : list Q :=
   [this (fst (r_x0 x)); this (snd (r_x0 x)); this (r_dx x); this (r_an x); this (r_fd x)].
-(* y = [[2, 1], [0, 3]] x  with the correct adjoint *)
-Definition ex_spec : polyspec :=
-  {| p_c := [[r 0; r 0]]; p_A := [[ [[r 2; r 1]; [r 0; r 3]] ]]; p_Q := [[ [[r 0; r 0]; [r 0; r 0]] ]];
-     p_B := [[ [[r 2; r 1]; [r 0; r 3]] ]]; p_Qb := [[ [[r 0; r 0]; [r 0; r 0]] ]];
+Definition zero2 : list (list K) := [[r 0; r 0]; [r 0; r 0]].
+Definition lin_spec (M : list (list K)) : polyspec :=
+  {| p_c := [[r 0; r 0]]; p_A := [[ M ]]; p_Q := [[ zero2 ]]; p_B := [[ M ]]; p_Qb := [[ zero2 ]];
      p_okind := [KArr [2%Z]]; p_cx := false |}.
+(* y = [[2, 1], [0, 3]] x  with the correct adjoint *)
+Definition ex_spec : polyspec := lin_spec [[r 2; r 1]; [r 0; r 3]].
 Definition ex_mod : module := poly_module [R0 0] [R0 1] ex_spec.
-Definition ex_cfg (quirk : bool) : fdcfg :=
-  {| c_dx := Q2Qc (1 # 4); c_rel := false; c_keepzero := true; c_random := false; c_usedf := None; c_rand := [];
-     c_order := [[0; 1]%nat]; q_seed_alias := quirk |}.
+Definition ex_cfg (usedf : option (list val)) : fdcfg :=
+  {| c_dx := Q2Qc (1 # 4); c_rel := false; c_keepzero := true; c_random := false; c_usedf := usedf; c_rand := [];
+     c_order := [[0; 1]%nat] |}.
 Definition ex_store (keep_out : bool) : store :=
   [ {| st := Some (V [r 1; r 2] (KArr [2%Z]) false); se := None; keep := false |};
-    {| st := None; se := (if keep_out then Some (V [r 0; r 0] (KArr [2%Z]) false) else None); keep := keep_out |} ].
+    {| st := None; se := (if keep_out then Some (V [r 7; r 7] (KArr [2%Z]) false) else None); keep := keep_out |} ].
 Definition reports_of (x : fderr + fdresult) : list (list Q) :=
   match x with inr y => map rep_q (f_reports y) | inl _ => [] end.
+Definition sens_of (x : fderr + fdresult) : list (option (list Q)) :=
+  match x with
+  | inr y => map (fun g => option_map (fun v => map (fun a => this (fst a)) (v_dat v)) (se g)) (f_store y)
+  | inl _ => []
+  end.
+Definition seeds_of (x : fderr + fdresult) : list (option (list Q)) :=
+  match x with
+  | inr y => map (option_map (fun v => map (fun a => this (fst a)) (v_dat v))) (f_seeds y)
+  | inl _ => []
+  end.
 
 (* the routine reports analytical = numerical = (column sums of the matrix: 2, 4) and restores the input *)
 Example C19_ex_correct_module :
-  Qll_eqb (reports_of (finite_difference (ex_cfg true) false [ex_mod] [R0 0] [R0 1] (ex_store false)))
+  Qll_eqb (reports_of (finite_difference (ex_cfg None) false [ex_mod] [R0 0] [R0 1] (ex_store false)))
           [[1; 0; 1 # 4; 2; 2]; [2; 0; 1 # 4; 4; 4]] = true.
 Proof. vm_compute. reflexivity. Qed.
 
-(* KNOWN FINDING (NEW_C19_seed_zeroed): the full clause "the numerical value is the seed-weighted difference quotient
-   of the seed the module was given" is FALSE of the faithful model when the output Signal keeps its allocation:
-   reset() zeroes the seed object in place and every numerical value becomes 0 although the module is correct *)
-Theorem C19_faithful_numerical_value_refuted :
-  exists c blk inps outps s,
-    Qll_eqb (reports_of (finite_difference c false blk inps outps s))
-            [[1; 0; 1 # 4; 2; 0]; [2; 0; 1 # 4; 4; 0]] = true.
+(* witness of the fixed finding F24 (formerly the refuted clause): the output Signal keeps its allocation and the seed
+   comes from use_df = [1, 2]. The pairs match (2 + 0*2, 1 + 3*2), the recorded seed is still [1, 2], and the kept
+   allocation ends as zeros *)
+Example C19_ex_kept_output_allocation :
+  let x := finite_difference (ex_cfg (Some [V [r 1; r 2] (KArr [2%Z]) false])) false [ex_mod] [R0 0] [R0 1] (ex_store true) in
+  Qll_eqb (reports_of x) [[1; 0; 1 # 4; 2; 2]; [2; 0; 1 # 4; 7; 7]] = true /\
+  seeds_of x = [Some [1; 2]] /\ sens_of x = [None; Some [0; 0]].
+Proof. vm_compute. repeat split; reflexivity. Qed.
+
+(* witness of the fixed finding F26: Network  a -> (b, b2) -> ...,  b -> c ; fromsig = b, tosig = [b2; c]: the selected
+   sub-network is the second module only, b2 is produced upstream of it. b2 gets the pair (0, 0), c the pair (3, 3), and
+   NO Signal keeps a sensitivity *)
+Definition up_mod1 : module :=
+  poly_module [R0 0] [R0 1; R0 2]
+    {| p_c := [[r 0; r 0]; [r 0; r 0]]; p_A := [[ [[r 2; r 0]; [r 0; r 2]] ]; [ [[r 5; r 0]; [r 0; r 5]] ]];
+       p_Q := [[ zero2 ]; [ zero2 ]]; p_B := [[ [[r 2; r 0]; [r 0; r 2]] ]; [ [[r 5; r 0]; [r 0; r 5]] ]];
+       p_Qb := [[ zero2 ]; [ zero2 ]]; p_okind := [KArr [2%Z]; KArr [2%Z]]; p_cx := false |}.
+Definition up_mod2 : module := poly_module [R0 1] [R0 3] (lin_spec [[r 3; r 0]; [r 0; r 3]]).
+Definition up_store : store :=
+  [ {| st := Some (V [r 1; r 2] (KArr [2%Z]) false); se := None; keep := false |}; sig0; sig0; sig0 ].
+Example C19_ex_upstream_output :
+  let x := finite_difference (ex_cfg None) true [up_mod1; up_mod2] [R0 1] [R0 2; R0 3] up_store in
+  Qll_eqb (reports_of x) [[2; 0; 1 # 4; 0; 0]; [2; 0; 1 # 4; 3; 3]; [4; 0; 1 # 4; 0; 0]; [4; 0; 1 # 4; 3; 3]] = true /\
+  sens_of x = [None; None; None; None] /\ seeds_of x = [Some [1; 1]; Some [1; 1]].
+Proof. vm_compute. repeat split; reflexivity. Qed.
+
+(* ... and the hypotheses of C19_network_no_sensitivity_left hold for b2 (root 2), which is NOT a signal of the executed
+   module: it is an output of interest with a value *)
+Example C19_ex_upstream_hypotheses :
+  find_first [R0 1] [up_mod1; up_mod2] 0 = Some 1%nat /\ find_last [R0 2; R0 3] [up_mod1; up_mod2] 0 None = Some 1%nat /\
+  out_sig [up_mod2] [R0 2; R0 3] (n_response [up_mod1] up_store) 2 /\
+  ~ direct_sig [up_mod2] 2.
 Proof.
-  exists (ex_cfg true), [ex_mod], [R0 0], [R0 1], (ex_store true). vm_compute. reflexivity.
+  split; [reflexivity|split; [reflexivity|split]].
+  - exists (R0 2). split; [left; reflexivity|]. split; [reflexivity|]. split; [reflexivity|]. vm_compute. discriminate.
+  - intros (m & x & Hm & Hx & Hr & _). destruct Hm as [<-|[]]. cbn in Hx. destruct Hx as [<-|[<-|[]]]; discriminate.
 Qed.
-Print Assumptions C19_faithful_numerical_value_refuted.
-
-(* ... and what holds instead (C19_analytical_pass): the seed survives when no allocation is kept or the quirk is absent *)
-Example C19_ex_without_quirk :
-  Qll_eqb (reports_of (finite_difference (ex_cfg false) false [ex_mod] [R0 0] [R0 1] (ex_store true)))
-          [[1; 0; 1 # 4; 2; 2]; [2; 0; 1 # 4; 4; 4]] = true.
-Proof. vm_compute. reflexivity. Qed.
 
 (* non-vacuity of the hypotheses of C19_linear_exact / C19_restores_states / C19_no_sensitivity_left on this instance *)
 Example C19_ex_affine_hypothesis :
